@@ -6,6 +6,7 @@ and get_first_after.  Ground truth is the series the same object iterates
 reference as a second opinion for exact intervals beyond the enumerated
 prefix."""
 import itertools
+from fractions import Fraction as F
 
 from .. import gen
 from .. import recgen
@@ -52,8 +53,15 @@ def _member_insts(ctx, repo, rec, pts):
 def _usable(rec, *points):
     if rec._min_point is not None or rec._max_point is not None:
         return False
-    for x in (rec._start_point, rec._end_point) + points:
+    for x in (rec._start_point, rec._end_point):
         if x is not None and (x._truncated or not R.tp_is_integral(x)):
+            return False
+    for x in points:
+        # probes may use a decimal form whose arithmetic is exact (R1)
+        if x is not None and (x._truncated or not R.tp_is_dyadic(x)):
+            return False
+        if x is not None and x._minute_of_hour is None and \
+                R.tp_offset_minutes(x) % 60:
             return False
     d = rec._duration
     if d is not None and not R.dur_is_integral(d):
@@ -82,6 +90,9 @@ def install(ctx, repo, probes):
             return
         mode = mode_now()
         pts, complete = _members(ctx, repo, rec)
+        if pts and p._minute_of_hour is None and \
+                (R.tp_offset_minutes(p) - R.tp_offset_minutes(pts[0])) % 60:
+            return      # decimal-hour probe re-zoned by minutes: tolerance
         ip = inst(p)
         insts = _member_insts(ctx, repo, rec, pts)
         truth = None
@@ -170,6 +181,15 @@ def install(ctx, repo, probes):
             ctx.ev("neighbour.post")
             if want is None:
                 ok = exc is None and res is None
+            elif not R.tp_is_integral(p) or R.tp_form(p) != "hms":
+                # a decimal-form probe: adding the interval is float
+                # arithmetic (tolerance regime); exactly at a bound of the
+                # series the noise may fall on either side
+                at_bound = k == 0 or (complete and k == len(pts) - 1)
+                ok = exc is None and (
+                    (res is not None and
+                     abs(inst(res) - inst(want)) <= F(1, 10**6)) or
+                    (res is None and at_bound))
             else:
                 ok = exc is None and res is not None and \
                     inst(res) == inst(want) and R.tp_valid(mode_now(), res)
@@ -206,6 +226,12 @@ def install(ctx, repo, probes):
         ctx.ev("first_after.post")
         if want is None:
             ok = exc is None and res is None
+        elif not R.tp_is_integral(p) or R.tp_form(p) != "hms":
+            at_bound = complete and want is pts[-1]
+            ok = exc is None and (
+                (res is not None and
+                 abs(inst(res) - inst(want)) <= F(1, 10**6)) or
+                (res is None and at_bound))
         else:
             ok = exc is None and res is not None and \
                 inst(res) == inst(want)
@@ -303,6 +329,21 @@ def run_case(ctx, repo, case):
             if len(insts) > 1:
                 probes.append(gen.tp_from_instant(
                     rng, mode, (insts[0] + insts[1]) // 2, allow_2400=False))
+        # members re-spelled in a decimal form (quarter hours / half minutes)
+        for i in insts[:3] + insts[-2:]:
+            if i % 900 == 0:
+                kw = gen.tp_from_instant(rng, mode, i, allow_2400=False,
+                                         offset=(rng.choice((0, 5, -3)), 0))
+                h, m = kw.pop("hour_of_day"), kw.pop("minute_of_hour")
+                kw.pop("second_of_minute")
+                kw.update(hour_of_day=h, hour_of_day_decimal=m / 60.0)
+                probes.append(kw)
+            if i % 15 == 0:
+                kw = gen.tp_from_instant(rng, mode, i, allow_2400=False)
+                s_ = kw.pop("second_of_minute")
+                kw["minute_of_hour_decimal"] = s_ / 60.0
+                if s_ % 15 == 0:
+                    probes.append(kw)
         for kw in probes:
             p = repo.tp(kw)
             try:
